@@ -56,3 +56,39 @@ Example C15_nonvacuous :
   apply_all_ok_bound 2 [PopBack; PushFront 9] [1;2] = Some [9;1] /\
   apply_all_ok_bound 2 [PushFront 9; PopBack] [1;2] = None.
 Proof. split; reflexivity. Qed.
+
+(* ---------------- end to end (EndToEndBound.v) ----------------
+   A fixed-limit Head / Tail fed with exactly what a subscriber of an ObservableVector delivers, in
+   ANY history of the vector (any capacity, so with lag and Reset; transactions; any polling
+   pattern): [e2e_run_bound n] applies every emitted diff one at a time and fails as soon as an
+   intermediate view has more than n items - it never fails.  The consumer never holds more than
+   `limit` items, not even between two diffs of one item. *)
+From EB Require Import OVec OVecRun EndToEnd EndToEndBound.
+
+Theorem C15_e2e_head_bound :
+  forall (A : Type) (n capacity : nat) (xs : list (op A)) (k : nat),
+    let init := fun l : list A => (snd (head_init n l), fst (head_init n l)) in
+    let R := fun (st : head_st A) (l v : list A) => head_R st l v /\ h_limit st = n in
+    exists g a, e2e_run_bound n head_on_diff init k (ginit capacity) None xs = Some (g, a) /\
+      g = grun (ginit capacity) xs /\
+      match a with
+      | Some (st, v) =>
+          (exists gh, nth_error (g_gh g) k = Some gh /\ R st (gh_replica gh) v) /\ length v <= n
+      | None => length (g_gh g) <= k
+      end.
+Proof. exact e2e_head_bound. Qed.
+Print Assumptions C15_e2e_head_bound.
+
+Theorem C15_e2e_tail_bound :
+  forall (A : Type) (n capacity : nat) (xs : list (op A)) (k : nat),
+    let init := fun l : list A => (snd (tail_init n l), fst (tail_init n l)) in
+    let R := fun (st : tail_st A) (l v : list A) => tail_R st l v /\ t_limit st = n in
+    exists g a, e2e_run_bound n tail_on_diff init k (ginit capacity) None xs = Some (g, a) /\
+      g = grun (ginit capacity) xs /\
+      match a with
+      | Some (st, v) =>
+          (exists gh, nth_error (g_gh g) k = Some gh /\ R st (gh_replica gh) v) /\ length v <= n
+      | None => length (g_gh g) <= k
+      end.
+Proof. exact e2e_tail_bound. Qed.
+Print Assumptions C15_e2e_tail_bound.
